@@ -492,13 +492,17 @@ impl ManagePatches for PatchManager {
 
     fn reset(&mut self) -> Result<()> {
         self.patches_state = PatchesState::default();
-        self.save_patches_state()?;
-        std::fs::remove_dir_all(self.patches_dir()).with_context(|| {
+        // Attempt both steps even if the first one fails: if the emptied state cannot be
+        // written, the old records stay on disk, and removing the artifacts is then what
+        // keeps them from ever validating (and booting) again.
+        let saved = self.save_patches_state();
+        let removed = std::fs::remove_dir_all(self.patches_dir()).with_context(|| {
             format!(
                 "Failed to delete patches dir {}",
                 self.patches_dir().display()
             )
-        })
+        });
+        saved.and(removed)
     }
 }
 
